@@ -320,7 +320,8 @@ INFO = {
                    "at full width (also above 2^32 for the 16-byte forms), flags, payload and disk pre-state are solver "
                    "variables; z3 decides the inductive step (post-state == the caller's abstract operation, via a symbolic "
                    "probe address) and explicit W;R / W;W;R / WS;R histories over every aliasing of the LBAs; also batches of "
-                   "command objects prepared first and issued afterwards through SCSI.execute.",
+                   "command objects prepared first and issued afterwards through SCSI.execute; the iSCSI target answers only "
+                   "for the logical unit the URL names (LUN symbolic); write data as bytes / bytearray / memoryview slice.",
     "functions": ["SCSI.read10/12/16, write10/12/16, writesame10/16, synchronizecache10/16, readcapacity10/16, inquiry",
                   "Read*/Write*/WriteSame*/SynchronizeCache*/ReadCapacity*/Inquiry constructors", "SCSIDevice.execute",
                   "ISCSIDevice.execute", "ReadCapacity10/16.unmarshall_datain", "Inquiry.unmarshall_datain"],
